@@ -18,7 +18,12 @@ Proof. revert q; induction l as [|x t IH]; intros q H; simpl in H; [lia|]. destr
 Lemma nth_upd_nat_neq {A} (l : list A) q q' v d : q <> q' -> nth q' (upd_nat l q v) d = nth q' l d.
 Proof.
   revert q q'; induction l as [|x t IH]; intros q q' H; destruct q; destruct q'; simpl; auto; try lia.
-  apply IH. lia.
+Qed.
+
+Lemma nth_map_seq {A} (f : nat -> A) n q d : (q < n)%nat -> nth q (map f (seq 0 n)) d = f q.
+Proof.
+  intros H. rewrite (nth_indep (map f (seq 0 n)) d (f 0%nat)) by (rewrite map_length, seq_length; exact H).
+  rewrite (map_nth f (seq 0 n) 0%nat q). rewrite seq_nth by exact H. reflexivity.
 Qed.
 
 Lemma nth_repeat_inf q n : nth q (repeat Inf n) Inf = Inf.
@@ -64,7 +69,7 @@ Qed.
 Lemma geom_first : (jS 0 = 0)%nat /\ (sk 0 = 0)%nat /\ (jE 0 < LL)%nat.
 Proof.
   unfold jS, jE, sk, LL, js, je, skip_of, L, eff_skip, py_dist_j_start, py_dist_j_end, py_dist_skip, py_dist_length.
-  fold r c w zr zc. change (Z.of_nat 0) with 0.
+  fold r c w zr zc. simpl Z.of_nat.
   destruct (Z.eqb_spec (Z.min (zc + 1) (Z.abs (zr - zc) + 2 * (w - 1) + 1 + 1 + 1)) (zc + 1)); unfold zr, zc in *; lia.
 Qed.
 
@@ -76,8 +81,11 @@ Qed.
 Lemma band_iff i j : (i < r)%nat ->
   in_band r c w i j = true <-> (jS i <= j < jE i)%nat.
 Proof.
-  intros Hi. rewrite in_band_iff. unfold jS, jE, js, je. fold r c w zr zc.
-  rewrite tie_dist_j_start, tie_dist_j_end. unfold band_lo, band_hi, zr, zc. lia.
+  intros Hi. pose proof (in_band_iff r c w i j) as HB.
+  assert (E : band_lo (Z.of_nat r) (Z.of_nat c) w (Z.of_nat i) <= Z.of_nat j < band_hi (Z.of_nat r) (Z.of_nat c) w (Z.of_nat i)
+              <-> (jS i <= j < jE i)%nat).
+  { unfold jS, jE, js, je, py_dist_j_start, py_dist_j_end, band_lo, band_hi. fold r c w. lia. }
+  tauto.
 Qed.
 
 (* ------------------------------------------------------------ matrix facts *)
@@ -118,11 +126,25 @@ Proof.
   split.
   - unfold row_init. rewrite map_length, seq_length. reflexivity.
   - intros q Hq. unfold rget, row_init. fold LL.
-    rewrite nth_indep with (d' := (fun q0 => if (q0 <=? psi_2b u)%nat then Fin 0 else Inf) 0%nat)
-      by (rewrite map_length, seq_length; exact Hq).
-    rewrite map_nth, seq_nth by exact Hq. simpl wlo. simpl whi. simpl wskip. rewrite Nat.add_0_r.
+    rewrite nth_map_seq by exact Hq. simpl wlo. simpl whi. simpl wskip. rewrite Nat.add_0_r.
     assert (E : ((0 <=? q)%nat && (q <=? LL - 1)%nat) = true) by (apply andb_true_iff; split; apply Nat.leb_le; lia).
     rewrite E. reflexivity.
+Qed.
+
+(* the two cells of the previous matrix row that cell (i, j) reads are where the buffer holds them *)
+Lemma prev_geom i j : (i < r)%nat -> (jS i <= j < jE i)%nat ->
+  (wskip i <= j)%nat /\ (S j - wskip i < LL)%nat /\ (wlo i <= j <= whi i)%nat /\
+  ((wlo i <= S j <= whi i)%nat \/ M i (S j) = Inf).
+Proof.
+  intros Hi Hj. destruct (geom_row i Hi) as (G1 & G2 & G3 & G4 & G5 & G6).
+  destruct i as [|i'].
+  - destruct geom_first as (F1 & F2 & F3). cbn [wlo whi wskip]. repeat split; lia.
+  - assert (Hi' : (S i' < r)%nat) by lia.
+    destruct (geom_succ i' Hi') as (S1 & S2 & S3 & S4 & S5 & S6).
+    destruct (geom_row i' ltac:(lia)) as (P1 & P2 & P3 & P4 & P5 & P6).
+    cbn [wlo whi wskip]. repeat split; try lia.
+    destruct (Nat.le_gt_cases (S j) (jE i')) as [Hle|Hgt]; [left; lia|right].
+    apply M_out; lia.
 Qed.
 
 (* ------------------------------------------------------------ one row *)
@@ -183,7 +205,7 @@ Proof.
       * apply andb_true_iff in B. destruct B as [B _]. apply andb_true_iff in B. destruct B as [_ B].
         apply Nat.eqb_eq in B.
         unfold rget. rewrite nth_upd_nat_neq; [apply nth_repeat_inf|].
-        intros ->. apply andb_false_iff in E. destruct E as [E|E]; apply Nat.leb_gt in E; lia.
+        intros Hq0. subst q. apply andb_false_iff in E. destruct E as [E|E]; apply Nat.leb_gt in E; lia.
       * unfold rget. apply nth_repeat_inf.
 Qed.
 
@@ -199,23 +221,11 @@ Proof.
   { rewrite Hcur by lia. replace (j - sk i + sk i)%nat with j by lia.
     assert (E : ((jS i <=? j)%nat && (j <=? j)%nat) = true) by (apply andb_true_iff; split; apply Nat.leb_le; lia).
     rewrite E. reflexivity. }
-  assert (Rdiag : rget prev (j - wskip i) = M i j /\ rget prev (j + 1 - wskip i) = M i (S j)).
-  { destruct i as [|i'] eqn:Ei.
-    - (* first row: the previous row is matrix row 0, stored at offset 0 *)
-      destruct geom_first as (F1 & F2 & F3). simpl wskip. rewrite !Nat.sub_0_r.
-      split; (rewrite <- (Nat.sub_0_r j) at 1 || idtac).
-      + replace j with (j - wskip 0)%nat at 1 by (simpl; lia). apply prev_read; simpl; try lia. left. simpl. lia.
-      + replace (j + 1)%nat with (S j - wskip 0)%nat by (simpl; lia). apply prev_read; simpl; try lia. left. simpl. lia.
-    - assert (Hi' : (S i' < r)%nat) by lia.
-      destruct (geom_succ i' Hi') as (S1 & S2 & S3 & S4 & S5 & S6).
-      destruct (geom_row i' ltac:(lia)) as (P1 & P2 & P3 & P4 & P5 & P6).
-      simpl wskip. split.
-      + apply prev_read; simpl; try lia. left. simpl. lia.
-      + replace (j + 1)%nat with (S j) by lia. apply prev_read; simpl; try lia.
-        destruct (Nat.le_gt_cases (S j) (jE i')) as [Hle|Hgt]; [left; simpl; lia|right].
-        apply M_out; [lia|lia]. }
-  destruct Rdiag as [Rd Ru].
-  unfold step_j. rewrite (cell_in i j Hi Hj) in *.
+  destruct (prev_geom i j Hi Hj) as (Q1 & Q2 & Q3 & Q4).
+  assert (Rd : rget prev (j - wskip i) = M i j) by (apply prev_read; [lia|lia|left; exact Q3]).
+  assert (Ru : rget prev (j + 1 - wskip i) = M i (S j)).
+  { replace (j + 1)%nat with (S j) by lia. apply prev_read; [lia|lia|exact Q4]. }
+  unfold step_j.
   pose proof (M_S_S i j) as HM. rewrite (cell_in i j Hi Hj) in HM.
   destruct (cleb (Fin (pdist (u_inner u) (nth i s1 []) (nth j s2 []))) (adj_max_step u)) eqn:Ems; cbn [negb].
   - (* the cell is computed *)
@@ -278,7 +288,7 @@ Proof.
     assert (Hi : (i < r)%nat) by lia.
     pose proof (row_step_ok i Hi prev Hp) as Hrow.
     split; [exact Hrow|]. split; [reflexivity|].
-    cbn [ps_spec]. fold jE c.
+    cbn [ps_spec]. fold r c. fold jE.
     destruct (negb (psi_1e u =? 0)%nat && (jE i =? c)%nat && (r - 1 - i <=? psi_1e u)%nat) eqn:B; [|reflexivity].
     f_equal. destruct Hrow as [_ Hq]. destruct (geom_row i Hi) as (G1 & G2 & G3 & G4 & G5 & G6).
     apply andb_true_iff in B. destruct B as [B _]. apply andb_true_iff in B. destruct B as [_ B]. apply Nat.eqb_eq in B.
@@ -288,50 +298,225 @@ Proof.
     rewrite E, B. reflexivity.
 Qed.
 
-(* ------------------------------------------------------------ the end value *)
-Hypothesis Hnd : ~ ((c <= psi_2e u)%nat /\ (r <= psi_1b u)%nat).     (* non-degenerate psi *)
 
-Lemma cmin_list_map_ext_ge {A} (f g : A -> cost) l :
-  (forall x, In x l -> f x = g x) -> cmin_list (map f l) = cmin_list (map g l).
-Proof. intros H. f_equal. apply map_ext_in. exact H. Qed.
+(* ------------------------------------------------------------ the value read at the end *)
+Lemma cmin_idem a : cmin a a = a.
+Proof. unfold cmin. destruct (cleb a a); reflexivity. Qed.
 
-(* minimum over the last column candidates *)
-Lemma ps_spec_is_column_min : ps_spec r =
-  (if (psi_1e u =? 0)%nat then Inf
-   else cmin_list (map (fun k => M (r - k) c) (seq 0 (S (Nat.min (psi_1e u) (r - 1)))))).
+Lemma cmin_list_char l v : (forall x, In x l -> cle v x) -> (v = Inf \/ In v l) -> v = cmin_list l.
 Proof.
-  destruct (psi_1e u =? 0)%nat eqn:E0.
-  - assert (G : forall n, ps_spec n = Inf) by (induction n as [|n IH]; simpl; [reflexivity|]; rewrite E0; simpl; exact IH).
-    apply G.
-  - apply Nat.eqb_neq in E0.
-    (* both sides are the minimum of M (S i) c over the rows i >= r-1-psi_1e; rows whose band does not reach the
-       last column contribute Inf *)
-    assert (G : forall n, (n <= r)%nat ->
-      ps_spec n = cmin_list (map (fun i => if (r - 1 - i <=? psi_1e u)%nat then M (S i) c else Inf) (rev (seq 0 n)))).
-    { induction n as [|n IH]; intros Hn; [reflexivity|].
-      cbn [ps_spec]. rewrite seq_S, rev_app_distr. cbn [rev app map cmin_list plus].
-      rewrite IH by lia.
-      assert (Hne : negb (psi_1e u =? 0)%nat = true) by (apply negb_true_iff; apply Nat.eqb_neq; exact E0).
-      rewrite Hne. cbn [andb].
-      destruct (Nat.leb_spec (r - 1 - n) (psi_1e u)) as [Hle|Hgt].
-      - destruct (Nat.eqb_spec (jE n) c) as [Ec|Enc]; cbn [andb].
-        + apply cmin_comm.
-        + rewrite (M_out n (c - 1)); [rewrite cmin_inf_l; reflexivity|lia|].
-          destruct (geom_row n ltac:(lia)) as (G1 & G2 & _). lia.
-          Unshelve. all: try exact 0%nat.
-      - rewrite andb_false_r. rewrite cmin_inf_l. reflexivity. }
-    rewrite (G r (le_n _)).
-    (* reindex i = r - 1 - k *)
-    apply cle_antisym.
-    + apply cmin_list_mono_incl_map. intros k Hk. apply in_seq in Hk.
-      exists (r - 1 - k)%nat. split.
-      * apply in_rev. rewrite rev_involutive. apply in_seq. lia.
-      * assert (E : (r - 1 - (r - 1 - k) <=? psi_1e u)%nat = true) by (apply Nat.leb_le; lia).
-        rewrite E. replace (S (r - 1 - k)) with (r - k)%nat by lia. apply cle_refl.
-    + apply cmin_list_mono_incl_map_inf. intros i Hi.
-      apply in_rev in Hi. rewrite rev_involutive in Hi. apply in_seq in Hi.
-      destruct (Nat.leb_spec (r - 1 - i) (psi_1e u)) as [Hle|Hgt]; [right|left; reflexivity].
-      exists (r - 1 - i)%nat. split; [apply in_seq; lia|].
-      replace (r - (r - 1 - i))%nat with (S i) by lia. apply cle_refl.
-Abort.
+  intros H1 H2. apply cle_antisym.
+  - destruct (cmin_list_in l) as [E|E]; [rewrite E; apply cle_inf|apply H1; exact E].
+  - destruct H2 as [->|H2]; [apply cle_inf|apply cmin_list_le; exact H2].
+Qed.
+
+(* a cell of the last column that lies outside the band is infinite *)
+Lemma M_lastcol_out i : (i < r)%nat -> jE i <> c -> M (S i) c = Inf.
+Proof.
+  intros Hi Hne. destruct (geom_row i Hi) as (G1 & G2 & G3 & G4 & G5 & G6).
+  replace c with (S (c - 1)) by lia. apply M_out; [exact Hi|lia].
+Qed.
+
+Lemma ps_spec_le : forall n, (n <= r)%nat -> forall i, (i < n)%nat ->
+  psi_1e u <> 0%nat -> (r - 1 - i <= psi_1e u)%nat -> cle (ps_spec n) (M (S i) c).
+Proof.
+  induction n as [|n IH]; intros Hn i Hi Hp Hk; [lia|].
+  cbn [ps_spec].
+  destruct (Nat.eq_dec i n) as [->|Hne].
+  - destruct (Nat.eq_dec (jE n) c) as [E|E].
+    + assert (B : (negb (psi_1e u =? 0)%nat && (jE n =? c)%nat && (r - 1 - n <=? psi_1e u)%nat) = true).
+      { apply andb_true_iff; split; [apply andb_true_iff; split|].
+        - apply negb_true_iff. apply Nat.eqb_neq. exact Hp.
+        - apply Nat.eqb_eq. exact E.
+        - apply Nat.leb_le. exact Hk. }
+      rewrite B. apply cmin_r.
+    + rewrite (M_lastcol_out n ltac:(lia) E). apply cle_inf.
+  - assert (Hle : cle (ps_spec n) (M (S i) c)) by (apply IH; lia).
+    destruct (negb (psi_1e u =? 0)%nat && (jE n =? c)%nat && (r - 1 - n <=? psi_1e u)%nat); [|exact Hle].
+    eapply cle_trans; [apply cmin_l|exact Hle].
+Qed.
+
+Lemma ps_spec_in : forall n, (n <= r)%nat ->
+  ps_spec n = Inf \/ exists i, (i < n)%nat /\ psi_1e u <> 0%nat /\ (r - 1 - i <= psi_1e u)%nat /\ ps_spec n = M (S i) c.
+Proof.
+  induction n as [|n IH]; intros Hn; [left; reflexivity|].
+  cbn [ps_spec].
+  destruct (negb (psi_1e u =? 0)%nat && (jE n =? c)%nat && (r - 1 - n <=? psi_1e u)%nat) eqn:B.
+  - destruct (cmin_cases (ps_spec n) (M (S n) c)) as [E|E]; rewrite E.
+    + destruct (IH ltac:(lia)) as [H|(i & H1 & H2 & H3 & H4)]; [left; exact H|right].
+      exists i. repeat split; try assumption; lia.
+    + right. exists n. apply andb_true_iff in B. destruct B as [B B3]. apply andb_true_iff in B. destruct B as [B1 B2].
+      apply negb_true_iff in B1. apply Nat.eqb_neq in B1. apply Nat.leb_le in B3.
+      repeat split; try assumption; lia.
+  - destruct (IH ltac:(lia)) as [H|(i & H1 & H2 & H3 & H4)]; [left; exact H|right].
+    exists i. repeat split; try assumption; lia.
+Qed.
+
+(* the spec's two candidate lists *)
+Definition candA : list cost := map (fun k => M (r - k) c) (seq 0 (S (Nat.min (psi_1e u) (r - 1)))).
+Definition candB : list cost := map (fun k => M r (c - k)) (seq 0 (S (Nat.min (psi_2e u) (c - 1)))).
+
+Lemma dtw_value_cands : dtw_value u s1 s2 = cmin_list (candA ++ candB).
+Proof.
+  rewrite dtw_value_Mfun. unfold end_cands, sr, sc. fold r c. rewrite map_app, !map_map. reflexivity.
+Qed.
+
+Lemma in_candA x : In x candA <-> exists k, (k <= psi_1e u)%nat /\ (k <= r - 1)%nat /\ x = M (r - k) c.
+Proof.
+  unfold candA. rewrite in_map_iff. split.
+  - intros (k & <- & Hk). apply in_seq in Hk. exists k. repeat split; lia.
+  - intros (k & H1 & H2 & ->). exists k. split; [reflexivity|]. apply in_seq. lia.
+Qed.
+
+Lemma in_candB x : In x candB <-> exists k, (k <= psi_2e u)%nat /\ (k <= c - 1)%nat /\ x = M r (c - k).
+Proof.
+  unfold candB. rewrite in_map_iff. split.
+  - intros (k & <- & Hk). apply in_seq in Hk. exists k. repeat split; lia.
+  - intros (k & H1 & H2 & ->). exists k. split; [reflexivity|]. apply in_seq. lia.
+Qed.
+
+Section LastRow.
+Variable i : nat.
+Hypothesis Hi : S i = r.
+Variable cur : list cost.
+Hypothesis Hcur : RowOK (S i) cur.
+(* the empty alignment is not admitted: begin relaxation of series 1 and end relaxation of series 2 do not
+   together cover everything (the code would return 0 there; dtw_value never looks at the border) *)
+Hypothesis Hpsi : (psi_1b u < r)%nat \/ (psi_2e u < c)%nat.
+
+Let ic := (c - sk i)%nat.
+
+Lemma last_geom : (jS i < c)%nat /\ jE i = c /\ (sk i <= jS i)%nat /\ (ic < LL)%nat.
+Proof.
+  assert (Hi' : (i < r)%nat) by lia. destruct (geom_row i Hi') as (G1 & G2 & G3 & G4 & G5 & G6).
+  assert (E : jE i = c) by (replace i with (r - 1)%nat by lia; apply geom_last).
+  unfold ic. repeat split; lia.
+Qed.
+
+Lemma last_cell : rget cur ic = M r c.
+Proof.
+  destruct last_geom as (G1 & G2 & G3 & G4). destruct Hcur as [_ Hq].
+  rewrite (Hq ic G4). cbn [wlo whi wskip].
+  replace (ic + sk i)%nat with c by (unfold ic; lia).
+  assert (E : ((jS i <=? c)%nat && (c <=? jE i)%nat) = true) by (apply andb_true_iff; split; apply Nat.leb_le; lia).
+  rewrite E, Hi. reflexivity.
+Qed.
+
+Lemma M_lastrow_left col : (1 <= col)%nat -> (col <= jS i)%nat -> M r col = Inf.
+Proof.
+  intros H1 H2. rewrite <- Hi. replace col with (S (col - 1)) by lia. apply M_out; lia.
+Qed.
+
+Lemma slice_le k : (k <= psi_2e u)%nat -> (k <= c - 1)%nat ->
+  cle (slice_min cur (ic - psi_2e u) ic) (M r (c - k)).
+Proof.
+  intros H1 H2. destruct last_geom as (G1 & G2 & G3 & G4). destruct Hcur as [_ Hq].
+  destruct (Nat.le_gt_cases (c - k) (jS i)) as [Hout|Hin].
+  - rewrite M_lastrow_left by lia. apply cle_inf.
+  - unfold slice_min. apply cmin_list_le. apply in_map_iff. exists (c - k - sk i)%nat. split.
+    + rewrite (Hq (c - k - sk i)%nat) by (unfold ic in G4; lia). cbn [wlo whi wskip].
+      replace (c - k - sk i + sk i)%nat with (c - k)%nat by lia.
+      assert (E : ((jS i <=? c - k)%nat && (c - k <=? jE i)%nat) = true)
+        by (apply andb_true_iff; split; apply Nat.leb_le; lia).
+      rewrite E, Hi. reflexivity.
+    + apply in_seq. unfold ic. lia.
+Qed.
+
+Lemma slice_in : slice_min cur (ic - psi_2e u) ic = Inf \/
+  exists k, (k <= psi_2e u)%nat /\ (k <= c - 1)%nat /\ slice_min cur (ic - psi_2e u) ic = M r (c - k).
+Proof.
+  destruct last_geom as (G1 & G2 & G3 & G4). destruct Hcur as [_ Hq].
+  unfold slice_min. destruct (cmin_list_in (map (rget cur) (seq (ic - psi_2e u) (ic + 1 - (ic - psi_2e u))))) as [E|E];
+    [left; exact E|].
+  apply in_map_iff in E. destruct E as (q & Eq & Hin). apply in_seq in Hin.
+  rewrite <- Eq. rewrite (Hq q) by lia. cbn [wlo whi wskip].
+  destruct ((jS i <=? q + sk i)%nat && (q + sk i <=? jE i)%nat) eqn:B; [|left; reflexivity].
+  apply andb_true_iff in B. destruct B as [B1 B2]. apply Nat.leb_le in B1. apply Nat.leb_le in B2.
+  destruct (Nat.eq_dec (q + sk i) 0) as [Z|NZ].
+  - (* column 0 of the last row: the border, infinite unless psi_1b covers all of series 1 *)
+    left. rewrite Z. unfold M, Mfun. rewrite Mf_S_0. unfold b1.
+    destruct Hpsi as [Hp|Hp]; [|unfold ic in Hin; lia].
+    destruct (psi_1b u) as [|p]; cbn; [reflexivity|].
+    destruct (Nat.leb_spec i p); [lia|reflexivity].
+  - right. exists (c - (q + sk i))%nat. unfold ic in Hin. repeat split; try lia.
+    rewrite Hi. f_equal. lia.
+Qed.
+End LastRow.
+
+Hypothesis Hpsi : (psi_1b u < r)%nat \/ (psi_2e u < c)%nat.
+
+Theorem dist_value_is_dtw_value : dist_value u s1 s2 = dtw_value u s1 s2.
+Proof.
+  rewrite dtw_value_cands. unfold dist_value. cbv zeta. fold r c.
+  pose proof (rows_ok r (le_n _)) as HR. destruct (rows u s1 s2 r) as [[cur skv] ps].
+  destruct HR as (Hrow & Hs & Hps). subst skv ps.
+  assert (Ei : S (r - 1) = r) by lia.
+  replace (wskip r) with (sk (r - 1)) by (rewrite <- Ei at 2; reflexivity).
+  rewrite <- Ei in Hrow.
+  pose proof (last_cell (r - 1) Ei cur Hrow Hpsi) as Hlast.
+  pose proof (slice_le (r - 1) Ei cur Hrow Hpsi) as Hsle.
+  pose proof (slice_in (r - 1) Ei cur Hrow Hpsi) as Hsin.
+  pose proof (ps_spec_le r (le_n _)) as Hple. pose proof (ps_spec_in r (le_n _)) as Hpin.
+  assert (Hrk : forall k, (k <= r - 1)%nat -> (r - k = S (r - 1 - k))%nat) by (intros; lia).
+  destruct (Nat.eq_dec (psi_1e u) 0) as [E1|E1]; destruct (Nat.eq_dec (psi_2e u) 0) as [E2|E2].
+  - (* no end relaxation *)
+    rewrite E1, E2. cbn [Nat.eqb andb]. rewrite Hlast.
+    apply cmin_list_char.
+    + intros x Hx. apply in_app_iff in Hx. destruct Hx as [Hx|Hx].
+      * apply in_candA in Hx. destruct Hx as (k & H1 & H2 & ->). replace k with 0%nat by lia.
+        rewrite Nat.sub_0_r. apply cle_refl.
+      * apply in_candB in Hx. destruct Hx as (k & H1 & H2 & ->). replace k with 0%nat by lia.
+        rewrite Nat.sub_0_r. apply cle_refl.
+    + right. apply in_app_iff. left. apply in_candA. exists 0%nat. rewrite Nat.sub_0_r. repeat split; lia.
+  - (* only series 2 relaxed at the end *)
+    assert (B1 : (psi_1e u =? 0)%nat = true) by (apply Nat.eqb_eq; exact E1).
+    assert (B2 : (psi_2e u =? 0)%nat = false) by (apply Nat.eqb_neq; exact E2).
+    rewrite B1, B2. cbn [andb negb].
+    assert (Eps : ps_spec r = Inf).
+    { destruct Hpin as [H|(i & _ & H & _)]; [exact H|contradiction]. }
+    rewrite Eps, cmin_inf_r.
+    apply cmin_list_char.
+    + intros x Hx. apply in_app_iff in Hx. destruct Hx as [Hx|Hx].
+      * apply in_candA in Hx. destruct Hx as (k & H1 & H2 & ->). replace k with 0%nat by lia.
+        rewrite Nat.sub_0_r. pose proof (Hsle 0%nat ltac:(lia) ltac:(lia)) as H0. rewrite Nat.sub_0_r in H0. exact H0.
+      * apply in_candB in Hx. destruct Hx as (k & H1 & H2 & ->). apply Hsle; assumption.
+    + destruct Hsin as [H|(k & H1 & H2 & H3)]; [left; exact H|right].
+      apply in_app_iff. right. apply in_candB. exists k. repeat split; assumption.
+  - (* only series 1 relaxed at the end *)
+    assert (B1 : (psi_1e u =? 0)%nat = false) by (apply Nat.eqb_neq; exact E1).
+    assert (B2 : (psi_2e u =? 0)%nat = true) by (apply Nat.eqb_eq; exact E2).
+    rewrite B1, B2. cbn [andb negb]. rewrite Hlast.
+    apply cmin_list_char.
+    + intros x Hx. apply in_app_iff in Hx. destruct Hx as [Hx|Hx].
+      * apply in_candA in Hx. destruct Hx as (k & H1 & H2 & ->).
+        eapply cle_trans; [apply cmin_r|]. rewrite (Hrk k H2). apply Hple; [lia|exact E1|lia].
+      * apply in_candB in Hx. destruct Hx as (k & H1 & H2 & ->). replace k with 0%nat by lia.
+        rewrite Nat.sub_0_r. apply cmin_l.
+    + destruct (cmin_cases (M r c) (ps_spec r)) as [E|E]; rewrite E.
+      * right. apply in_app_iff. left. apply in_candA. exists 0%nat. rewrite Nat.sub_0_r. repeat split; lia.
+      * destruct Hpin as [H|(i & H1 & H2 & H3 & H4)]; [left; exact H|right].
+        apply in_app_iff. left. apply in_candA. exists (r - 1 - i)%nat. repeat split; try lia.
+        rewrite H4. f_equal. lia.
+  - (* both *)
+    assert (B1 : (psi_1e u =? 0)%nat = false) by (apply Nat.eqb_neq; exact E1).
+    assert (B2 : (psi_2e u =? 0)%nat = false) by (apply Nat.eqb_neq; exact E2).
+    rewrite B1, B2. cbn [andb negb].
+    apply cmin_list_char.
+    + intros x Hx. apply in_app_iff in Hx. destruct Hx as [Hx|Hx].
+      * apply in_candA in Hx. destruct Hx as (k & H1 & H2 & ->).
+        eapply cle_trans; [apply cmin_r|]. rewrite (Hrk k H2). apply Hple; [lia|exact E1|lia].
+      * apply in_candB in Hx. destruct Hx as (k & H1 & H2 & ->).
+        eapply cle_trans; [apply cmin_l|]. apply Hsle; assumption.
+    + destruct (cmin_cases (slice_min cur (c - sk (r - 1) - psi_2e u) (c - sk (r - 1))) (ps_spec r)) as [E|E]; rewrite E.
+      * destruct Hsin as [H|(k & H1 & H2 & H3)]; [left; exact H|right].
+        apply in_app_iff. right. apply in_candB. exists k. repeat split; assumption.
+      * destruct Hpin as [H|(i & H1 & H2 & H3 & H4)]; [left; exact H|right].
+        apply in_app_iff. left. apply in_candA. exists (r - 1 - i)%nat. repeat split; try lia.
+        rewrite H4. f_equal. lia.
+Qed.
+
+(* the model of the code, written after the code = the specification-level model *)
+Theorem dist_model_is_dtw_model : dist_model u s1 s2 = dtw_model u s1 s2.
+Proof. unfold dist_model, dtw_model. rewrite dist_value_is_dtw_value. reflexivity. Qed.
+
 End Refine.
